@@ -111,4 +111,89 @@ Proof.
           | |- context [alookup ?e ?k ?l] => destruct (alookup e k l); cbn
           end); auto.
 Qed.
+
+(** ---- after markChildDeleted the name has no path node (later bindings get a fresh one) ---- *)
+Definition gnode := get_node B.
+
+Lemma gnode_set_nodes n x (s : st) m :
+  pn_nodes (gnode (set_node B n x s) m) = if (m =? n) && (n <? length (s_nodes B s)) then pn_nodes x else pn_nodes (gnode s m).
+Proof.
+  unfold gnode, get_node, set_node. cbn [s_nodes with_nodes].
+  destruct (Nat.eqb_spec m n) as [->|N]; cbn [andb].
+  - destruct (Nat.ltb_spec n (length (s_nodes B s))); [rewrite nth_upd_same by auto; reflexivity | rewrite upd_oob by auto; reflexivity].
+  - rewrite nth_upd_other by auto. reflexivity.
+Qed.
+
+Definition nodes_same (s s' : st) : Prop :=
+  length (s_nodes B s') = length (s_nodes B s) /\ forall m, pn_nodes (gnode s' m) = pn_nodes (gnode s m).
+
+Lemma nodes_same_refl s : nodes_same s s. Proof. split; auto. Qed.
+Lemma nodes_same_trans a b c : nodes_same a b -> nodes_same b c -> nodes_same a c.
+Proof. intros (L1 & H1) (L2 & H2). split; [congruence|]. intros m. rewrite H2, H1. reflexivity. Qed.
+
+Lemma ns_set_node n x (s : st) : pn_nodes x = pn_nodes (gnode s n) -> nodes_same s (set_node B n x s).
+Proof.
+  intros E. split; [cbn; apply upd_length|]. intros m. rewrite gnode_set_nodes.
+  destruct (Nat.eqb_spec m n) as [->|N]; cbn [andb]; auto. destruct (n <? length (s_nodes B s)); auto.
+Qed.
+
+Lemma ns_fold {A} (f : A -> st -> st) (l : list A) :
+  (forall a s, nodes_same s (f a s)) -> forall s, nodes_same s (fold_left (fun st a => f a st) l s).
+Proof.
+  intros H. induction l as [|a l IH]; intros s; cbn; [apply nodes_same_refl|].
+  eapply nodes_same_trans; [apply H | apply IH].
+Qed.
+
+Lemma ns_notify_delete fuel : forall n s, nodes_same s (notify_delete B fuel n s).
+Proof.
+  induction fuel as [|f IH]; intros n s; cbn; [split; [reflexivity | intros; reflexivity]|].
+  eapply nodes_same_trans; [apply ns_set_node; reflexivity|].
+  apply (ns_fold (fun c st => notify_delete B f (snd c) st)). intros a s0. apply IH.
+Qed.
+
+Lemma ns_rwn_none n nm m : forall held s, nodes_same s (snd (rwn_loop B n nm None m held s)).
+Proof.
+  induction m as [|r m IH]; intros held s; cbn; [apply nodes_same_refl|].
+  eapply nodes_same_trans; [apply ns_set_node; reflexivity | apply IH].
+Qed.
+
+Lemma held_rwn_none n nm m : forall held s, fst (rwn_loop B n nm None m held s) = held.
+Proof. induction m as [|r m IH]; intros held s; cbn; auto. Qed.
+
+Lemma alookup_adel_same nm (l : list (nat * nat)) : alookup Nat.eqb nm (adel Nat.eqb nm l) = None.
+Proof.
+  induction l as [|[k v] l IH]; cbn; auto. destruct (Nat.eqb_spec nm k); cbn; auto.
+  destruct (Nat.eqb_spec nm k); [congruence | auto].
+Qed.
+
+Theorem unlinked_name_has_no_node n nm (s : st) :
+  n < length (s_nodes B s) ->
+  alookup Nat.eqb nm (pn_nodes (gnode (mark_child_deleted B bstep n nm s) n)) = None.
+Proof.
+  intros L. unfold mark_child_deleted, remove_with_name.
+  set (lp := match alookup Nat.eqb nm (pn_refs (get_node B s n)) with
+             | Some m => rwn_loop B n nm None m [] s | None => ([], s) end).
+  assert (H1 : fst lp = [] /\ nodes_same s (snd lp)).
+  { unfold lp. destruct (alookup Nat.eqb nm (pn_refs (get_node B s n))); [|split; [reflexivity | apply nodes_same_refl]].
+    split; [apply held_rwn_none | apply ns_rwn_none]. }
+  destruct lp as [held s1]. cbn [fst snd] in H1. destruct H1 as (-> & (L1 & N1)). cbn [release_all].
+  set (s2 := set_node B n _ s1).
+  assert (E2 : pn_nodes (gnode s2 n) = adel Nat.eqb nm (pn_nodes (gnode s1 n))).
+  { unfold s2. rewrite gnode_set_nodes, Nat.eqb_refl. cbn.
+    destruct (Nat.ltb_spec n (length (s_nodes B s1))); [reflexivity | lia]. }
+  destruct (alookup Nat.eqb nm (pn_nodes (get_node B s1 n))) as [c|].
+  - destruct (ns_notify_delete (node_fuel B s2) c s2) as (_ & N3). rewrite N3, E2. apply alookup_adel_same.
+  - rewrite E2. apply alookup_adel_same.
+Qed.
+
+(** ... so that the next walk / create of that name allocates a new node, which is not deleted *)
+Theorem fresh_node_not_deleted n nm (s : st) :
+  alookup Nat.eqb nm (pn_nodes (gnode s n)) = None -> n < length (s_nodes B s) ->
+  let '(c, s') := path_node_for B n nm s in
+  c = length (s_nodes B s) /\ pn_deleted (get_node B s' c) = false.
+Proof.
+  intros E L. unfold path_node_for. unfold gnode in E. rewrite E. split; [reflexivity|].
+  unfold get_node, set_node; cbn. rewrite nth_upd_other by lia.
+  rewrite app_nth2 by lia. rewrite Nat.sub_diag. reflexivity.
+Qed.
 End Fence.
